@@ -356,7 +356,7 @@ static int run_stress(unsigned seed, int ypct, int nstay, int nabrupt, int nslow
   fb = (uint32_t *)calloc(W * H, 4);
   S->frameBuffer = (char *)fb;
   S->deferUpdateTime = 1; S->newClientHook = new_hook; S->alwaysShared = TRUE;
-  S->cursor = NULL;
+  rfbSetCursor(S, NULL);
   phase("init", 20);
   port = start_server();
   if (port < 0) { printf("result error=nolisten\n"); return 1; }
@@ -481,13 +481,13 @@ static int run_forced(int which) {
   rfbLogEnable(0);
   S = rfbGetScreen(&argc, NULL, W, H, 8, 3, 4);
   fb = (uint32_t *)calloc(W * H, 4); S->frameBuffer = (char *)fb;
-  S->deferUpdateTime = 1; S->newClientHook = new_hook; S->alwaysShared = TRUE; S->cursor = NULL;
+  S->deferUpdateTime = 1; S->newClientHook = new_hook; S->alwaysShared = TRUE; rfbSetCursor(S, NULL);
   phase("init", 20);
   port = start_server();
   if (port < 0) { printf("result error=nolisten\n"); return 1; }
   if (which == 3) {
     static cli_t c2[2]; pthread_t t2[2]; int i, diff = 0;
-    S->cursor = rfbMakeXCursor(8, 8, (char *)"xxxxxxxxxxxxxxxxxxxxxxxxxxxxxxxxxxxxxxxxxxxxxxxxxxxxxxxxxxxxxxxx", (char *)"xxxxxxxxxxxxxxxxxxxxxxxxxxxxxxxxxxxxxxxxxxxxxxxxxxxxxxxxxxxxxxxx");
+    rfbSetCursor(S, rfbMakeXCursor(8, 8, (char *)"xxxxxxxxxxxxxxxxxxxxxxxxxxxxxxxxxxxxxxxxxxxxxxxxxxxxxxxxxxxxxxxx", (char *)"xxxxxxxxxxxxxxxxxxxxxxxxxxxxxxxxxxxxxxxxxxxxxxxxxxxxxxxxxxxxxxxx"));
     S->cursor->foreRed = S->cursor->foreGreen = S->cursor->foreBlue = 0xffff;
     S->cursorX = 12; S->cursorY = 10;
     for (i = 0; i < W * H; i++) fb[i] = 0x00202020u;
@@ -632,7 +632,7 @@ static int run_phases(unsigned seed, int ypct, int rounds) {
   for (i = 0; i < PW * PH; i++) fb[i] = 0x00300000u + (uint32_t)i * 3u;
   S->deferUpdateTime = 1; S->newClientHook = new_hook; S->alwaysShared = TRUE;
   cur = rfbMakeXCursor(4, 4, (char *)"xxxxxxxxxxxxxxxx", (char *)"xxxxxxxxxxxxxxxx");
-  S->cursor = cur; S->cursorX = 4; S->cursorY = 4;
+  rfbSetCursor(S, cur); S->cursorX = 4; S->cursorY = 4;
   phase("init", 20);
   port = start_server();
   if (port < 0) { printf("result error=nolisten\n"); return 1; }
@@ -667,7 +667,8 @@ static int run_phases(unsigned seed, int ypct, int rounds) {
       sraRgnDestroy(rg); sraRgnDestroy(r2);
       break; }
     case PH_CURMOVE:
-      LIBCALL(rfbDefaultPtrAddEvent(0, 2 + (int)(r % 9), 2 + (int)((r >> 8) % 9), slots[3].cl));
+      /* a position different from the current one (an unchanged position is a no-op in the library) */
+      LIBCALL(rfbDefaultPtrAddEvent(0, 2 + (S->cursorX - 2 + 1 + (int)(r % 8)) % 9, 2 + (int)((r >> 8) % 9), slots[3].cl));
       break;
     case PH_CURREPLACE: {
       rfbCursorPtr nc = rfbMakeXCursor(4, 4, (char *)((r & 1) ? "x  x xx  xx x  x" : " xx x  xx  x xx "), (char *)"xxxxxxxxxxxxxxxx");
